@@ -219,7 +219,22 @@ def IMPLIES(a, b):
     return z3.Implies(Z(a), Z(b))
 
 
+def _lit(x):
+    """z3 numerals / boolean literals as python values (keeps terms small: `If(0 == 0, a, b)` is just `a`)"""
+    if is_z3(x):
+        if z3.is_int_value(x):
+            return x.as_long()
+        if z3.is_rational_value(x):
+            return x.as_fraction()
+        if z3.is_true(x):
+            return True
+        if z3.is_false(x):
+            return False
+    return x
+
+
 def ITE(c, a, b):
+    c = _lit(c)
     if c is True: return a
     if c is False: return b
     if not is_scalar(a) or not is_scalar(b):
@@ -245,6 +260,9 @@ def EQ(a, b):
         return AND(*[EQ(x, y) for x, y in zip(a, b)])
     if not is_z3(a) and not is_z3(b):
         return a == b
+    la, lb = _lit(a), _lit(b)
+    if not is_z3(la) and not is_z3(lb):
+        return bool(la == lb)
     za, zb = Z(a), Z(b)
     if z3.is_bool(za) != z3.is_bool(zb):
         za, zb = Z(num(a)), Z(num(b))
